@@ -176,11 +176,11 @@ def _train_implicit_cholesky_rows(
 
     for i in range(start, end):
         row = ctx.matrix[i]
-        (n,) = row.shape
-        if n == 0:
+        cols = row.indices()[0]
+        # rows without data keep their current values (the row's shape is the matrix width, not its entry count)
+        if cols.shape[0] == 0:
             continue
 
-        cols = row.indices()[0]
         vals = row.values().type(ctx.left.type())
 
         # we can optimize by only considering the nonzero entries of Cu-I
